@@ -6,7 +6,7 @@ From Slock Require Import Engine.Types Engine.Queues Engine.Timers Engine.Engine
 Import ListNotations.
 Open Scope N_scope.
 
-Theorem C01_locked_is_sum_of_holds : forall t0 a acts, core_run (init_db t0 a) acts ->
+Theorem C01_locked_is_sum_of_holds : forall t0 a acts, core acts ->
   forall k, m_locked (getm (fst (run (init_db t0 a) acts)) k)
             = sumdepth (fst (run (init_db t0 a) acts)) (holders (getm (fst (run (init_db t0 a) acts)) k)).
 Proof. exact reach_locked_is_sum. Qed.
@@ -17,12 +17,12 @@ Definition c01_demo : list action :=
   [AReq 1 (make_cmd true 1 0 101 7 0 5 0 10 2 2 None); AReq 2 (make_cmd true 2 0 102 7 0 5 0 10 2 0 None);
    AReq 1 (make_cmd true 3 0 101 7 0 5 0 10 2 2 None); AReq 3 (make_cmd true 4 0 103 7 0 5 0 10 0 0 None)].
 Example C01_locked_is_sum_of_holds_nonvacuous :
-  core_run (init_db 1000000 1) c01_demo
+  core c01_demo
   /\ m_locked (getm (fst (run (init_db 1000000 1) c01_demo)) 7) = 3
   /\ holders (getm (fst (run (init_db 1000000 1) c01_demo)) 7) = [1; 2].
-Proof. split; [split; [repeat constructor|repeat split; vm_compute; reflexivity]|split; vm_compute; reflexivity]. Qed.
+Proof. split; [split; [repeat constructor|vm_compute; reflexivity]|split; vm_compute; reflexivity]. Qed.
 
-Theorem C01_holders_wellformed : forall t0 a acts, core_run (init_db t0 a) acts ->
+Theorem C01_holders_wellformed : forall t0 a acts, core acts ->
   forall k m, aget (mgrs (fst (run (init_db t0 a) acts))) k = Some m ->
     (forall r, In r (holders m) -> exists l, aget (store (fst (run (init_db t0 a) acts))) r = Some l /\ l_key l = k
                                              /\ r < next (fst (run (init_db t0 a) acts)))
@@ -37,7 +37,7 @@ Example C01_holders_wellformed_nonvacuous :
   exists m, aget (mgrs (fst (run (init_db 1000000 1) c01_demo))) 7 = Some m /\ m_cur m = Some 1.
 Proof. eexists. split; vm_compute; reflexivity. Qed.
 
-Theorem C01_no_hold_lost : forall t0 a acts, core_run (init_db t0 a) acts ->
+Theorem C01_no_hold_lost : forall t0 a acts, core acts ->
   forall r l, aget (store (fst (run (init_db t0 a) acts))) r = Some l -> 0 < l_locked l ->
     In r (holders (getm (fst (run (init_db t0 a) acts)) (l_key l))) /\ l_locked l <= 255 /\ l_timeouted l = true.
 Proof. exact reach_no_hold_lost. Qed.
